@@ -125,13 +125,22 @@ class Gen:
             a = self.path(0) if r.random() < 0.6 else r.choice(["1", "0"])
             b = self.path(0) if r.random() < 0.6 else r.choice(["2", "3"])
             return f"({a}..{b})"
-        if depth > 0 and not self.in_tstr:
-            self.in_tstr += 1
-            try:
-                return '"u${ ' + self.filtered(depth - 1, ternary=r.random() < 0.2) + ' }v"'
-            finally:
-                self.in_tstr -= 1
+        if not self.in_tstr:
+            return self.tstr(depth)
         return self.literal()
+
+    def tstr(self, depth: int = 0) -> str:
+        """A template string whose ${...} holds a filtered expression (allowed in every
+        expression position: operands of conditions, when values, loop arguments ...)."""
+        r = self.r
+        self.in_tstr += 1
+        try:
+            inner = self.filtered(max(depth - 1, 0), ternary=r.random() < 0.2)
+            if " | " not in inner and " if " not in inner:
+                inner += " | " + self.filter(0)
+            return r.choice(['"u${ ', '"${']) + inner + r.choice([' }v"', '}"'])
+        finally:
+            self.in_tstr -= 1
 
     def lam(self, depth: int) -> str:
         r = self.r
@@ -186,6 +195,8 @@ class Gen:
     def boolean(self, depth: int = 1) -> str:
         r = self.r
         k = r.random()
+        if k < 0.08 and not self.in_tstr:
+            return f"{self.tstr()} {r.choice(['==', '!=', 'contains'])} {r.choice([chr(39) + 'S' + chr(39), self.primitive(0)])}"
         if k < 0.45 or depth <= 0:
             return self.path(1) if r.random() < 0.8 else self.primitive(0)
         if k < 0.6:
@@ -212,9 +223,9 @@ class Gen:
             it = r.choice(LISTS)
         s = f"{v} in {it}"
         if r.random() < 0.25:
-            s += f" limit: {r.choice(['1', '2', self.path(0)])}"
+            s += f" limit: {r.choice(['1', '2', self.path(0), self.primitive(0)])}"
         if r.random() < 0.2:
-            s += f" offset: {r.choice(['1', 'continue', self.path(0)])}"
+            s += f" offset: {r.choice(['1', 'continue', self.path(0), self.primitive(0)])}"
         if r.random() < 0.1:
             s += " reversed"
         return s
@@ -345,7 +356,11 @@ class Gen:
             e = self.loop().replace(" offset: continue", "")
             if r.random() < 0.7 and "," not in e:
                 e += f" cols: {r.choice(['2', self.path(0), self.path(1)])}"
-            return ("b", "tablerow", e, nb(), [])
+            self.tablerow = False           # the tablerow parser does not accept a nested tablerow
+            try:
+                return ("b", "tablerow", e, nb(), [])
+            finally:
+                self.tablerow = True
         if k < 0.85:
             return ("b", "capture", r.choice(LOCALS), nb(), [])
         if k < 0.91:
@@ -830,6 +845,22 @@ class Engine:
                 self.reified[name] = [reify_node(n, self.owner, name) for n in t.nodes]
             finally:
                 _REIFY["tn"], _REIFY["tokens"] = None, None
+
+    def replace(self, key: str, source: str) -> None:
+        """Edit a template in the loader (as an application updating its store would) and
+        reify the new version; Template objects handed out earlier stay as they are."""
+        self.templates[key] = source
+        self.sources[bare_name(key)] = source
+        self.env.loader.templates[key] = source
+        self.env.loader.memo.pop(key, None)
+        name = bare_name(key)
+        t = self.env.get_template(name, tag=key[: -len(name) - 1]) if key != name else self.env.get_template(name)
+        self.parsed[name] = t
+        _REIFY["tn"], _REIFY["tokens"] = name, self.tok_owner
+        try:
+            self.reified[name] = [reify_node(n, self.owner, name) for n in t.nodes]
+        finally:
+            _REIFY["tn"], _REIFY["tokens"] = None, None
 
     def main(self) -> Any:
         if self.root not in self.parsed:
@@ -1731,6 +1762,111 @@ def bound_names(eng: Engine) -> set[str]:
 
 
 # ---------------------------------------------------------------------------
+# 5b. History on one Template object: analyse, edit a partial / parent, analyse again
+
+EDITED = "{{ zq | upcase }}{% assign zw = zq | append: zr %}{% echo zs | downcase %}{% raw %}z{% endraw %}"
+
+
+def all_reports(t: Any) -> dict[str, Any]:
+    """Everything the analysis API of one Template object returns (canonicalised)."""
+    from liquid2.exceptions import LiquidError
+    out: dict[str, Any] = {}
+    for inc in (True, False):
+        for key, call in ((f"analyze({inc})", lambda: t.analyze(include_partials=inc)),
+                          (f"analyze_async({inc})", lambda: asyncio.run(t.analyze_async(include_partials=inc)))):
+            try:
+                out[key] = ("ok", analysis_obs(call()))
+            except LiquidError as e:
+                out[key] = ("err", type(e).__name__)
+    try:
+        for k, (hs, ha) in helper_obs(t).items():
+            canon = (lambda v: sorted(map(repr, v))) if ("segments" in k or "paths" in k) else (lambda v: v)
+            out[k], out[k + "_async"] = canon(hs), canon(ha)
+    except LiquidError as e:
+        out["helpers"] = ("err", type(e).__name__)
+    return out
+
+
+def history_findings(eng: Engine, key: str, data: dict[str, Any]) -> tuple[list[tuple[str, str, dict]], bool]:
+    """Call the whole analysis API on the held root template, edit template `key` in
+    the loader, call it again: the second report must equal that of freshly parsed
+    templates over the updated store, and must cover what the render now uses."""
+    held = eng.main()
+    first = all_reports(held)
+    eng.replace(key, EDITED)
+    second = all_reports(held)
+    fresh_eng = Engine(dict(eng.templates), root=eng.root, env_kind=eng.env_kind)
+    fresh = all_reports(fresh_eng.main())
+    out: list[tuple[str, str, dict]] = []
+    for k in fresh:
+        if second.get(k) != fresh[k]:
+            stale = second.get(k) == first.get(k)
+            out.append(("stale-analysis-after-reload",
+                        f"{k} on a Template object analysed before {key!r} was edited and reloaded "
+                        f"{'still returns the old report' if stale else 'differs from the analysis of freshly parsed templates'}",
+                        {"edited": key, "api": k}))
+            break
+    if second.get("analyze(True)", ("err",))[0] == "ok":
+        a2 = second["analyze(True)"][1]
+        run = run_render(eng, data)
+        for sig, what, info in usage_findings(eng, a2, run, bound_names(eng)):
+            if sig in ("variable-unreported", "global-unreported", "filter-unreported", "tag-unreported", "raw-tag-unreported"):
+                out.append(("stale-analysis-after-reload", f"after {key!r} was edited: {what}", {"edited": key, **info}))
+                break
+    return out, first.get("analyze(True)") != second.get("analyze(True)")
+
+
+def fs_history_findings() -> list[tuple[str, str, dict]]:
+    """The same history with a caching file-system loader with auto-reload."""
+    import os
+    import shutil
+    import tempfile
+    from pathlib import Path
+    from liquid2 import CachingFileSystemLoader, Environment
+    out: list[tuple[str, str, dict]] = []
+    scenarios = [
+        ({"main.liquid": "{% include 'p.liquid' %}{{ a }}{% render 'p.liquid' %}", "p.liquid": "{{ old | strip }}"}, "p.liquid"),
+        ({"main.liquid": "{% extends 'base.liquid' %}{% block b %}{{ a }}{{ block.super }}{% endblock %}",
+          "base.liquid": "{% block b %}{{ old | strip }}{% endblock %}"}, "base.liquid"),
+    ]
+    for files, edited in scenarios:
+        root = Path(tempfile.mkdtemp(prefix="c11_", dir=os.environ.get("VERIF_SCRATCH", "/var/tmp")))
+        try:
+            for n, src in files.items():
+                (root / n).write_text(src)
+                os.utime(root / n, (1_000_000, 1_000_000))
+            env = Environment(loader=CachingFileSystemLoader(root, auto_reload=True))
+            held = env.get_template("main.liquid")
+            first = all_reports(held)
+            new = "{% block b %}" + EDITED + "{% endblock %}" if "base" in edited else EDITED
+            (root / edited).write_text(new)
+            os.utime(root / edited, (1_000_100, 1_000_100))
+            second = all_reports(held)
+            fresh = all_reports(Environment(loader=CachingFileSystemLoader(root, auto_reload=True)).get_template("main.liquid"))
+            log: list[tuple] = []
+            held.global_data = RecordingGlobals({"a": 1, "zq": "q", "zr": "r", "zs": "s"}, log)
+            held.render()
+            reported = {k for k, _ in second["analyze(True)"][1]["variables"]} if second["analyze(True)"][0] == "ok" else set()
+            missing = sorted({e[1] for e in log} - reported)
+            for k in fresh:
+                if second.get(k) != fresh[k]:
+                    out.append(("stale-analysis-after-reload",
+                                f"CachingFileSystemLoader(auto_reload=True): {k} on a held Template after {edited!r} was rewritten "
+                                f"{'still returns the old report' if second.get(k) == first.get(k) else 'differs from a fresh analysis'}",
+                                {"files": files, "edited": edited, "api": k}))
+                    break
+            if missing:
+                out.append(("stale-analysis-after-reload",
+                            f"CachingFileSystemLoader(auto_reload=True): the render after {edited!r} was rewritten reads {missing}; "
+                            "the second analyze() does not report them", {"files": files, "edited": edited}))
+            if first == second:
+                out.append(("history-check-vacuous", "the edit did not change the report", {"files": files}))
+        finally:
+            shutil.rmtree(root, ignore_errors=True)
+    return out
+
+
+# ---------------------------------------------------------------------------
 # 6. Recorded witnesses of known findings (re-observed on every run)
 
 WITNESSES = [
@@ -1854,6 +1990,9 @@ def main(chk: C.Check, build: C.Build) -> None:
         if what:
             chk.finding(sig, what, {"templates": templates, "data": data})
 
+    for sig, what, info in fs_history_findings():
+        chk.finding(sig, what, {**info, "how": "harness/c11.py fs_history_findings"})
+
     # ---- programs
     programs: list[tuple[dict[str, str], bool]] = [(p, True) for p in CORPUS]
     nprog = 900 if thorough else 110
@@ -1867,7 +2006,8 @@ def main(chk: C.Check, build: C.Build) -> None:
     stats = {"programs": 0, "unparsable": 0, "static_errors": 0, "renders": 0, "renders_completed": 0,
              "render_errors": {}, "events": 0, "lookups": 0, "global_lookups": 0, "filters": 0, "tags": 0,
              "decisions": 0, "with_partials": 0, "with_inheritance": 0, "tag_nodes": 0, "tag_nodes_rendered": 0,
-             "trace_cases": 0, "error_trace_cases": 0, "hierarchical_root": 0, "tag_aware_loader": 0}
+             "trace_cases": 0, "error_trace_cases": 0, "hierarchical_root": 0, "tag_aware_loader": 0,
+             "history_checks": 0, "history_checks_report_changed": 0}
     nontrivial: set[str] = set()
     seen_programs: set[str] = set()
     samples: list[Any] = []
@@ -1981,6 +2121,19 @@ def main(chk: C.Check, build: C.Build) -> None:
         if len(samples) < 4 and pi >= len(CORPUS) and renderable:
             samples.append({"templates": progs, "variables": h["variables"][0], "globals": h["global_variables"][0],
                             "filters": h["filter_names"][0], "tags": h["tag_names"][0]})
+        hist_keys = [k for k in templates if bare_name(k) != eng.root]
+        if renderable and hist_keys:
+            reach = {sp[0] for _, sps in a["tags"] for sp in sps} | {sp[0] for _, vs in a["variables"] for _, sp in vs}
+            cand = [k for k in hist_keys if bare_name(k) in reach] or hist_keys
+            hkey = r.choice(sorted(cand))
+            try:
+                found, changed = history_findings(eng, hkey, gen_data(r, "true") | {"zq": "q", "zr": "r", "zs": "s"})
+            except Unsupported:
+                found, changed = [], False
+            stats["history_checks"] += 1
+            stats["history_checks_report_changed"] += changed
+            for sig, what, info in found:
+                chk.finding(sig, what, {**replay, **info, "how": "harness/c11.py history_findings"})
         mt = "(" + ", ".join(model_t[:2]) + ")" if len(model_t) > 1 else (model_t[0] if model_t else "tt")
         items.append({"case": f"(let L := {L} in {' && '.join(parts)})",
                       "model": f"let L := {L} in (match assoc R L with Some n => analyze (loader_of L) true run_fuel R n | None => OutOfFuel end, {mt})",
